@@ -53,6 +53,19 @@ func (e *env) identities(op *Op) []*ecsVal {
 	return out
 }
 
+// scopeSig: a scoped answer that entered the cache through a background
+// refresh (an internal request that carried ECS and was answered with a
+// non-zero scope) sits in the SHARED entry it refreshed; every consequence of
+// that one defect — served outside the scope, uncapped TTL, refreshed again —
+// is reported under one signature. Answers made by client queries keep one
+// signature per broken clause.
+func scopeSig(clause string, s *seen) string {
+	if s != nil && s.Internal {
+		return "scope/tailored-refresh-answer-in-shared-entry"
+	}
+	return "scope/" + clause
+}
+
 func origin(s *seen) string {
 	if s.Internal {
 		return "internal-refresh"
@@ -68,6 +81,7 @@ func (e *env) judgeAudience(idx int, op *Op, out *outcome) {
 	gens, ttls := markers(out.Res.Msg)
 	ids := e.identities(op)
 	servedScoped := false
+	var scopedGen *seen
 	cacheServed := false
 	for i, g := range gens {
 		e.mu.Lock()
@@ -92,6 +106,7 @@ func (e *env) judgeAudience(idx int, op *Op, out *outcome) {
 			continue
 		}
 		servedScoped = true
+		scopedGen = s
 		inside := false
 		for _, id := range ids {
 			if eff.contains(id) {
@@ -106,7 +121,7 @@ func (e *env) judgeAudience(idx int, op *Op, out *outcome) {
 			r.Count(fmt.Sprintf("scoped_serves_inside_scope_fam%d", eff.Fam), 1)
 			r.Distinct(fmt.Sprintf("aud/f%d/decl%d/src%d/eff%d", eff.Fam, s.Decl.Bits, s.Req.Bits, eff.Bits))
 		} else {
-			r.Violation("scope/served-outside-scope/"+origin(s),
+			r.Violation(scopeSig("served-outside-scope", s),
 				fmt.Sprintf("client %s (upstream identity %v) was served generation %d of %s from cache; that answer was declared for %s after %s was forwarded (audience %s, made by a %s in op %d)",
 					op.Client, ids, g, s.Name, s.Decl, s.Req, eff, origin(s), s.OpIdx), caseOf(e, idx, op, ex))
 		}
@@ -114,13 +129,13 @@ func (e *env) judgeAudience(idx int, op *Op, out *outcome) {
 			age := e.adv - s.AdvAt
 			capD := time.Duration(e.m.capSec) * time.Second
 			if age >= capD {
-				r.Violation("scope/served-past-ttl-cap/"+origin(s),
+				r.Violation(scopeSig("served-past-ttl-cap", s),
 					fmt.Sprintf("scoped generation %d of %s served %v (virtual) after admission; cache_limit_ttl is %ds", g, s.Name, age, e.m.capSec), caseOf(e, idx, op, ex))
 			} else {
 				r.Count("scoped_serves_within_cap", 1)
 			}
 			if int(ttls[i]) > e.m.capSec {
-				r.Violation("scope/ttl-above-cap/"+origin(s),
+				r.Violation(scopeSig("ttl-above-cap", s),
 					fmt.Sprintf("scoped generation %d of %s served from cache with TTL %d > cache_limit_ttl %ds", g, s.Name, ttls[i], e.m.capSec), caseOf(e, idx, op, ex))
 			}
 		}
@@ -137,7 +152,7 @@ func (e *env) judgeAudience(idx int, op *Op, out *outcome) {
 		}
 		r.Eval(1)
 		if servedScoped {
-			r.Violation("scope/background-refresh",
+			r.Violation(scopeSig("background-refresh", scopedGen),
 				fmt.Sprintf("a cache hit on a scoped answer for %s (client %s) started a background refresh (internal upstream request, ECS=%v)", s.Name, op.Client, s.Req),
 				caseOf(e, idx, op, nil))
 		} else if cacheServed {
